@@ -295,3 +295,20 @@ Definition m_attrs_valid (d : attrdecls) (declared : qname -> bool) (atts : list
   forallb (m_attr_item d declared) atts && fst (m_attr_defs (ad_uses d) atts).
 Definition m_defaulted (d : attrdecls) (atts : list (qname * list N)) : list (qname * list N) :=
   snd (m_attr_defs (ad_uses d) atts).
+
+(** * xsi:type: SchemaValidator::validateElement, complex declared type and complex xsi:type *)
+(** first loop: walk getBaseComplexTypeInfo() from the xsi:type until the element's declared type is met *)
+Fixpoint m_find_decl (d : N) (up : ancestry) : bool :=
+  match up with [] => false | (t, _) :: r => if (t =? d)%N then true else m_find_decl d r end.
+(** second loop ("perform the check on the entire inheritance chain"): for every type below the declared one, its
+    getDerivedBy() against the element's block set (ElemNoSubforBlock) and the declared type's (TypeNoSubforBlock) *)
+Fixpoint m_block_loop (d : N) (eb tb : blockset) (up : ancestry) : bool :=
+  match up with
+  | [] => true
+  | (t, m) :: r => if (t =? d)%N then true
+                   else negb (blocked eb m) && negb (blocked tb m) && m_block_loop d eb tb r
+  end.
+Definition m_xsitype (d : N) (eb tb : blockset) (abstract : bool) (up : ancestry) : bool :=
+  if abstract then false                              (* NoAbstractInXsiType *)
+  else if m_find_decl d up then m_block_loop d eb tb up
+  else false.                                         (* NonDerivedXsiType *)
